@@ -10,6 +10,7 @@ import (
 	"runtime/debug"
 	"sort"
 	"strings"
+	"sync/atomic"
 
 	"github.com/cbehopkins/gkvlite"
 
@@ -74,6 +75,12 @@ type Env struct {
 	H     map[string]*gkvlite.Collection
 	M     *model.Store
 	Snaps []*Snap
+	Pins  []*Pinned
+	// Stale holds the handles (snapshot collections) whose version has been
+	// superseded by a later mutation of the original; StaleNames the same for
+	// suspended visits.  Used to attribute item loads (C15 known finding).
+	Stale map[*gkvlite.Collection]bool
+	cbN   [9]int64 // callback invocation counters (atomic: callbacks may run on gkvlite's iterator goroutines)
 	RC    *RefMon
 	Stats map[string]int64
 	Viol  *Violation
@@ -209,7 +216,7 @@ func (e *Env) callbacks() gkvlite.StoreCallbacks {
 			if e.RC != nil {
 				e.RC.Alloc(it)
 			}
-			e.Stats["cb.ItemAlloc"]++
+			atomic.AddInt64(&e.cbN[0], 1)
 			return it
 		}
 	}
@@ -218,22 +225,22 @@ func (e *Env) callbacks() gkvlite.StoreCallbacks {
 			if e.RC != nil {
 				e.RC.AddRef(i)
 			}
-			e.Stats["cb.ItemAddRef"]++
+			atomic.AddInt64(&e.cbN[1], 1)
 		}
 		cb.ItemDecRef = func(c *gkvlite.Collection, i *gkvlite.Item) {
 			if e.RC != nil {
 				e.RC.DecRef(i)
 			}
-			e.Stats["cb.ItemDecRef"]++
+			atomic.AddInt64(&e.cbN[2], 1)
 		}
 	}
 	if m&CBVal != 0 {
 		cb.ItemValLength = func(c *gkvlite.Collection, i *gkvlite.Item) int {
-			e.Stats["cb.ItemValLength"]++
+			atomic.AddInt64(&e.cbN[3], 1)
 			return len(i.Val)
 		}
 		cb.ItemValWrite = func(c *gkvlite.Collection, i *gkvlite.Item, w io.WriterAt, offset int64) error {
-			e.Stats["cb.ItemValWrite"]++
+			atomic.AddInt64(&e.cbN[4], 1)
 			v := i.Val
 			chunk := len(v)/3 + 1
 			if len(v) == 0 {
@@ -252,7 +259,7 @@ func (e *Env) callbacks() gkvlite.StoreCallbacks {
 			return nil
 		}
 		cb.ItemValRead = func(c *gkvlite.Collection, i *gkvlite.Item, r io.ReaderAt, offset int64, valLength uint32) error {
-			e.Stats["cb.ItemValRead"]++
+			atomic.AddInt64(&e.cbN[5], 1)
 			v := make([]byte, valLength)
 			chunk := int(valLength)/2 + 1
 			for pos := 0; pos < len(v); pos += chunk {
@@ -270,13 +277,13 @@ func (e *Env) callbacks() gkvlite.StoreCallbacks {
 	}
 	if m&CBBefore != 0 {
 		cb.BeforeItemWrite = func(c *gkvlite.Collection, i *gkvlite.Item) (*gkvlite.Item, error) {
-			e.Stats["cb.BeforeItemWrite"]++
+			atomic.AddInt64(&e.cbN[6], 1)
 			return i, nil
 		}
 	}
 	if m&CBAfter != 0 {
 		cb.AfterItemRead = func(c *gkvlite.Collection, i *gkvlite.Item) (*gkvlite.Item, error) {
-			e.Stats["cb.AfterItemRead"]++
+			atomic.AddInt64(&e.cbN[7], 1)
 			return i, nil
 		}
 	}
@@ -290,7 +297,7 @@ func (e *Env) callbacks() gkvlite.StoreCallbacks {
 	}
 	if needCmp {
 		cb.KeyCompareForCollection = func(name string) gkvlite.KeyCompare {
-			e.Stats["cb.KeyCompareForCollection"]++
+			atomic.AddInt64(&e.cbN[8], 1)
 			if c, ok := e.Cmps[name]; ok {
 				return c.Func()
 			}
@@ -304,7 +311,6 @@ func (e *Env) callbacks() gkvlite.StoreCallbacks {
 // open / reopen
 
 func (e *Env) open() {
-	e.CurOp = "Open"
 	var s *gkvlite.Store
 	var err error
 	e.guard("NewStore", func() {
@@ -338,7 +344,10 @@ func (e *Env) Reopen(closeOld bool) {
 	if e.Cfg.MemOnly {
 		return
 	}
-	e.CurOp = fmt.Sprintf("Reopen(close=%v)", closeOld)
+	if !e.begin("Reopen(close=%v)", closeOld) {
+		return
+	}
+	e.ResumeAll()
 	for _, sn := range e.Snaps {
 		e.closeSnap(sn)
 	}
@@ -407,6 +416,13 @@ func (e *Env) CheckColl(label string, st *gkvlite.Store, c *gkvlite.Collection, 
 		return
 	}
 	want := m.Sorted()
+	if e.RC != nil {
+		if e.Stale[c] {
+			e.RC.SetTag("stale-version-read")
+		} else {
+			e.RC.SetTag("Readback")
+		}
+	}
 	e.guard("readback", func() {
 		if mode&RTotals != 0 {
 			e.tag(tagPrefix + "Totals")
@@ -610,14 +626,13 @@ func keysOf(kvs []model.KV) string {
 
 // ReadbackAll reads every open handle of this env (original and snapshots).
 func (e *Env) ReadbackAll(mode ReadMode) {
-	if e.S == nil {
-		return
-	}
 	if e.Cfg.Churn {
 		e.churn()
 	}
-	for _, n := range e.M.Live.Names() {
-		e.CheckColl("orig", e.S, e.H[n], e.M.Live.Colls[n], mode, "")
+	if e.S != nil {
+		for _, n := range e.M.Live.Names() {
+			e.CheckColl("orig", e.S, e.H[n], e.M.Live.Colls[n], mode, "")
+		}
 	}
 	for i, sn := range e.Snaps {
 		if sn.Closed {
@@ -636,24 +651,19 @@ func (e *Env) churn() {
 	if e.churnStore == nil {
 		e.churnStore, _ = gkvlite.NewStore(nil)
 	}
-	var st gkvlite.AllocStats
-	c := e.churnStore.SetCollection("churn", nil)
-	st = c.AllocStats()
-	_ = st
-	free := freeNodesCount()
-	n := int(free) + 8
-	if n > 4000 {
-		n = 4000
+	// Every item goes into its own private collection: taking the node off
+	// the free list without ever freeing one, so the free list really drains.
+	n := int(freeNodesCount()) + 8
+	if n > 20000 {
+		n = 20000
 	}
 	for i := 0; i < n; i++ {
 		e.churnN++
 		k := []byte(fmt.Sprintf("~churn~%d", e.churnN))
+		c := e.churnStore.MakePrivateCollection(nil)
 		_ = c.SetItem(&gkvlite.Item{Key: k, Val: k, Priority: int32(e.churnN & 0xffff)})
 	}
 	e.Stats["churn.inserts"] += int64(n)
-	// the scratch collection is simply abandoned (never closed), so that its
-	// nodes stay allocated and keep holding the foreign data.
-	e.churnStore.RemoveCollection("never-existed")
 }
 
 func freeNodesCount() int64 { return int64(len(gkvlite.VerifFreeNodes())) }
@@ -780,4 +790,18 @@ func (e *Env) AfterStep() {
 			}
 		}
 	}
+}
+
+// CBNames names the callback counters.
+var CBNames = []string{"ItemAlloc", "ItemAddRef", "ItemDecRef", "ItemValLength", "ItemValWrite", "ItemValRead", "BeforeItemWrite", "AfterItemRead", "KeyCompareForCollection"}
+
+// CBCounts returns the callback invocation counters.
+func (e *Env) CBCounts() map[string]int64 {
+	res := map[string]int64{}
+	for i, n := range CBNames {
+		if v := atomic.LoadInt64(&e.cbN[i]); v != 0 {
+			res["cb."+n] = v
+		}
+	}
+	return res
 }
